@@ -105,7 +105,7 @@ Section Lift.
       destruct ok; inversion H; subst; left; reflexivity.
     - destruct (cancelled s); [destruct (close_on_cancel cfg)|]; inversion H; subst; left; reflexivity.
     - destruct (lst s); try (inversion H; subst; left; reflexivity).
-      destruct (accept_err s); [inversion H; subst; left; reflexivity|].
+      destruct (accept_err s); [destruct (accept_retry cfg); inversion H; subst; left; reflexivity|].
       destruct (backlog s); [discriminate|inversion H; subst; left; reflexivity].
     - inversion H; subst. right. eexists. reflexivity.
   Qed.
@@ -596,7 +596,7 @@ Proof.
       * destruct (cancelled s0); [destruct (close_on_cancel cfg)|]; inversion Hs; subst;
           (split; [exact Hids|cbn; auto]).
       * destruct (lst s0); try (inversion Hs; subst; split; [exact Hids|exact I]).
-        destruct (accept_err s0); [inversion Hs; subst; split; [exact Hids|exact I]|].
+        destruct (accept_err s0); [destruct (accept_retry cfg); inversion Hs; subst; (split; [exact Hids|cbn; rewrite ?Hnext; cbn; auto])|].
         destruct (backlog s0); [discriminate|inversion Hs; subst; split; [exact Hids|cbn; auto]].
       * inversion Hs; subst. split; cbn.
         -- intros i c Hn. destruct (Nat.lt_ge_cases i (length (conns s0))) as [Hlt|Hge].
@@ -737,7 +737,7 @@ Proof.
       * cbn in L1. specialize (L1 eq_refl).
         destruct (lst s0) eqn:El; try congruence.
         -- destruct (accept_err s0).
-           ++ inversion Hs; subst. unfold srv_inv, stop_in_progress, mark_accept_failed in *; cbn. rewrite ?El in *. srv_fin.
+           ++ destruct (accept_retry cfg); inversion Hs; subst; unfold srv_inv, stop_in_progress, mark_accept_failed in *; cbn; rewrite ?El in *; srv_fin.
            ++ destruct (backlog s0); [discriminate|]. inversion Hs; subst.
               unfold srv_inv, stop_in_progress in *; cbn. rewrite ?El in *. srv_fin.
         -- specialize (R3 eq_refl). inversion Hs; subst. unfold srv_inv, stop_in_progress in *; cbn. rewrite ?El in *. srv_fin.
@@ -827,7 +827,7 @@ Proof.
       destruct ok; inversion Hs; subst; first [exact Ha|reflexivity].
     + destruct (cancelled s0); [destruct (close_on_cancel cfg)|]; inversion Hs; subst; first [exact Ha|reflexivity].
     + destruct (lst s0); try (inversion Hs; subst; first [exact Ha|reflexivity]).
-      destruct (accept_err s0); [inversion Hs; subst; first [exact Ha|reflexivity]|].
+      destruct (accept_err s0); [destruct (accept_retry cfg); inversion Hs; subst; first [exact Ha|reflexivity]|].
       destruct (backlog s0); [discriminate|inversion Hs; subst; first [exact Ha|reflexivity]].
     + inversion Hs; subst; first [exact Ha|reflexivity].
   - unfold stop_step in Hs. destruct (nth_error (stops s0) si) as [p|]; [|discriminate].
@@ -850,6 +850,50 @@ Proof.
   - inversion Hs; subst; first [exact Ha|reflexivity].
   - inversion Hs; subst; first [exact Ha|reflexivity].
 Qed.
+
+(* a transient Accept error (descriptor exhaustion) never ends Run when it is retried *)
+Theorem accept_never_fails cfg s : accept_retry cfg = true -> reachable cfg s -> accept_failed s = false.
+Proof.
+  intros Har Hre. revert s Hre. apply (invariant_reachable cfg (fun s => accept_failed s = false)); [reflexivity|].
+  intros s0 l s1 _ Ha Hs. unfold step in Hs. destruct (negb (alive s0)); [discriminate|].
+  destruct l as [|si|ci|ci ri|v o| | |ci it|ci|ci b|b|b|].
+  - unfold run_step in Hs. destruct (run s0) as [|valid ok| | | |e]; try discriminate.
+    + destruct (negb valid); [inversion Hs; subst; exact Ha|]. destruct (stop_in_progress s0); [discriminate|].
+      destruct ok; inversion Hs; subst; exact Ha.
+    + destruct (cancelled s0); [destruct (close_on_cancel cfg)|]; inversion Hs; subst; exact Ha.
+    + destruct (lst s0); try (inversion Hs; subst; exact Ha).
+      destruct (accept_err s0); [rewrite Har in Hs; inversion Hs; subst; exact Ha|].
+      destruct (backlog s0); [discriminate|inversion Hs; subst; exact Ha].
+    + inversion Hs; subst; exact Ha.
+  - unfold stop_step in Hs. destruct (nth_error (stops s0) si) as [p|]; [|discriminate].
+    destruct p; try discriminate.
+    + destruct (lst s0); inversion Hs; subst; exact Ha.
+    + inversion Hs; subst; exact Ha.
+    + inversion Hs; subst; exact Ha.
+    + destruct (connwg s0 =? 0); [inversion Hs; subst; exact Ha|discriminate].
+  - destruct (with_conn_frame _ _ _ _ Hs) as [Hsame _]. apply same_server_srv in Hsame.
+    destruct Hsame as (_ & _ & _ & _ & _ & _ & E). rewrite E. exact Ha.
+  - destruct (with_conn_frame _ _ _ _ Hs) as [Hsame _]. apply same_server_srv in Hsame.
+    destruct Hsame as (_ & _ & _ & _ & _ & _ & E). rewrite E. exact Ha.
+  - destruct (run s0); try discriminate. inversion Hs; subst; exact Ha.
+  - inversion Hs; subst; exact Ha.
+  - destruct (lst s0); try discriminate. inversion Hs; subst; exact Ha.
+  - destruct (upd_conn_env_frame _ _ _ _ Hs) as (Hsame & _). apply same_server_srv in Hsame.
+    destruct Hsame as (_ & _ & _ & _ & _ & _ & E). rewrite E. exact Ha.
+  - destruct (upd_conn_env_frame _ _ _ _ Hs) as (Hsame & _). apply same_server_srv in Hsame.
+    destruct Hsame as (_ & _ & _ & _ & _ & _ & E). rewrite E. exact Ha.
+  - destruct (upd_conn_env_frame _ _ _ _ Hs) as (Hsame & _). apply same_server_srv in Hsame.
+    destruct Hsame as (_ & _ & _ & _ & _ & _ & E). rewrite E. exact Ha.
+  - inversion Hs; subst; exact Ha.
+  - inversion Hs; subst; exact Ha.
+  - inversion Hs; subst; exact Ha.
+Qed.
+
+(* pinned: one failed Accept ends Run while the socket stays bound and Ready stays true *)
+Lemma accept_error_pinned_refuted :
+  exists s, run_labels pinned_cfg init [ECallRun true true; LRun; LRun; EAcceptErr; LRun] = Some s /\
+            run s = RRet true /\ ready s = true /\ lst s = Listening /\ accept_failed s = true.
+Proof. eexists. split; [vm_compute; reflexivity|]. repeat split. Qed.
 
 (* the pinned configuration: one panicking handler kills the process *)
 Lemma alive_pinned_refuted :
@@ -962,7 +1006,7 @@ Proof.
       * destruct (cancelled s0); [destruct (close_on_cancel cfg)|]; inversion Hs; subst; cbn; rewrite H;
           destruct (add_before_accept cfg); lia.
       * destruct (lst s0); try (inversion Hs; subst; cbn; rewrite H; destruct (add_before_accept cfg); cbn; lia).
-        destruct (accept_err s0); [inversion Hs; subst; cbn; rewrite H; destruct (add_before_accept cfg); cbn; lia|].
+        destruct (accept_err s0); [destruct (accept_retry cfg); inversion Hs; subst; cbn; destruct (add_before_accept cfg); cbn in *; lia|].
         destruct (backlog s0); [discriminate|inversion Hs; subst; cbn; rewrite H; destruct (add_before_accept cfg); reflexivity].
       * inversion Hs; subst; cbn. rewrite pending_app. unfold not_done. cbn. rewrite H.
         destruct (add_before_accept cfg); lia.
@@ -1020,7 +1064,7 @@ Proof.
         -- destruct (close_on_cancel cfg); inversion Hs; subst; cbn; intros Hst; specialize (H Hst); tauto.
         -- inversion Hs; subst; cbn. intros Hst. specialize (H Hst). destruct H; congruence.
       * destruct (lst s0); try (inversion Hs; subst; cbn; intros Hst; destruct (H Hst) as [Hc Hw]; rewrite Hw; auto).
-        destruct (accept_err s0); [inversion Hs; subst; cbn; intros Hst; destruct (H Hst) as [Hc Hw]; rewrite Hw; auto|].
+        destruct (accept_err s0); [destruct (accept_retry cfg); inversion Hs; subst; cbn; intros Hst; destruct (H Hst) as [Hc Hw]; rewrite Hw; auto|].
         destruct (backlog s0); [discriminate|inversion Hs; subst; cbn; exact H].
       * inversion Hs; subst; cbn. exact H.
     + unfold stop_step in Hs. destruct (nth_error (stops s0) si) as [p|] eqn:En; [|discriminate].
@@ -1159,7 +1203,7 @@ Proof.
         destruct (stop_in_progress s0); [discriminate|]. destruct ok; inversion Hs; subst; cbn; exact (H Hsi).
       * destruct (cancelled s0); [destruct (close_on_cancel cfg)|]; inversion Hs; subst; cbn; exact (H Hsi).
       * destruct (lst s0); try (inversion Hs; subst; cbn; exact (H Hsi)).
-        destruct (accept_err s0); [inversion Hs; subst; cbn; exact (H Hsi)|].
+        destruct (accept_err s0); [destruct (accept_retry cfg); inversion Hs; subst; cbn; exact (H Hsi)|].
         destruct (backlog s0); [discriminate|inversion Hs; subst; cbn; exact (H Hsi)].
       * inversion Hs; subst; cbn. intros Hp. apply Forall_app. split; [exact (H Hsi Hp)|].
         constructor; [|constructor]. cbn. rewrite Hsi. cbn.
